@@ -495,6 +495,12 @@ func (e *Executor) GetTask(call *Call) (*ast.Task, error) {
 		}
 	}
 
+	// A task found through an alias sees the same variables as one found by
+	// name, which matched no wildcard
+	if call.Vars == nil {
+		call.Vars = ast.NewVars()
+	}
+	call.Vars.Set("MATCH", ast.Var{Value: []string(nil)})
 	return matchingTask, nil
 }
 
